@@ -21,6 +21,8 @@ def layouts(rng, length, bed, n):
             if bed:
                 s = min(length - 1, pos)
                 e = min(length, s + rng.choice([0, 1, 2, 3, 5, 8]))
+                if s == 0 and e == 0:
+                    e = 1                   # (0,0) is the reader's padding marker (D5, a known finding of C02) — not C20's subject
                 items.append((s, e))
                 pos = s + rng.choice([0, 0, 1, 2, 4])
             else:
@@ -42,7 +44,8 @@ class C20(Prop):
             "layouts (adjacent, gapped, overlapping, nested, zero-length); for each file EVERY request shape [s, e) with "
             "s ∈ −4..len, e ∈ s+1..len+4 and every bin count 1..(e−s) in exact mode for the three statistics, plus per-base "
             "requests and zoom-backed (exact=False) requests, with missing ∈ {0, −1, 7, NaN} and oob ∈ {NaN, −5}, all through "
-            "the real Python API (pybigtools.values from the cdylib built from /repo). Exact equality with the model and the "
+            "the real Python API (pybigtools.values from the cdylib built from /repo), a share of them into a caller-supplied "
+            "`arr=` buffer that already holds other numbers. Exact equality with the model and the "
             "oracle where the bin width is integral; NaN-freedom and range for every width. Non-trivial = a request with bins "
             "whose range is cut by data, or reaching outside the chromosome")
     removable = ()
@@ -98,6 +101,11 @@ class C20(Prop):
                         reqs.append(dict(chrom=CHROM, start=s, end=e, bins=nb, summary=sm, exact=True, missing=m, oob=o))
                         if (s + e + nb) % 4 == 0:
                             reqs.append(dict(chrom=CHROM, start=s, end=e, bins=nb, summary=sm, exact=False, missing=m, oob=o))
+                        if (s + 2 * e + nb) % 4 == 1:
+                            # the same request into a caller-supplied buffer that already holds something
+                            reqs.append(dict(chrom=CHROM, start=s, end=e, bins=nb, summary=sm, exact=((s + nb) % 3 != 0), missing=m, oob=o, arr=99))
+                    if (s + 2 * e) % 5 == 1:
+                        reqs.append(dict(chrom=CHROM, start=s, end=e, bins=None, missing=m, oob=o, arr=99))
             jobs.append({"file": outp, "requests": reqs})
             meta.append((k, bed, length, items))
         jf, rf = os.path.join(d, "jobs.json"), os.path.join(d, "results.json")
